@@ -63,7 +63,7 @@ def rules(t):
                 # the id is the parameter of a closure: look at what the closure is mapped over (`ids.into_iter().for_each(|id| ..)`)
                 cs = t.closure_creator(g)
                 if cs is not None:
-                    users = [x for x in t.sites(cs.fn) if x.node["k"] == "call" and any(short(g.path).split("::")[-1] in fmt(ar) and "closure" in fmt(ar) for ar in t.args(x))]
+                    users = [x for x in t.sites(cs.fn) if x.node["k"] == "call" and any(short(g.path) in fmt(ar) for ar in t.args(x))]
                     if users: a = " ".join(fmt(ar) for ar in t.args(users[0]))
             if "sent_packets" not in a or "::remove(" not in a: r.bad(f"{name}|src", c, f"{name} argument is not taken from the removed sent-packet record: {a[:60]}")
     out.append(r)
